@@ -47,6 +47,7 @@ type ModOpts struct {
 	Decoys       bool // C16: longer names sharing a prefix declared earlier, same-named relations in other types
 	MultiDup     bool // C12: several conflicts inside one file (several duplicate conditions, several clashing relations)
 	OnlyKinds    []string
+	CaseNames    bool // in a quarter of the sets, rename a condition / relation / type to the upper-case form of another one (names that differ only in case)
 }
 
 var ConflictKinds = []string{
@@ -431,6 +432,9 @@ func Modules(t *rapid.T, o ModOpts) *ModuleSet {
 		}
 		ms.Conflicts = cs
 	}
+	if o.CaseNames && rapid.IntRange(0, 3).Draw(t, "caseNames") == 0 {
+		caseVariants(t, ms)
+	}
 	// render
 	for i := range ms.Files {
 		f := &ms.Files[i]
@@ -616,4 +620,103 @@ func (ms *ModuleSet) expected() *Model {
 	}
 	sort.SliceStable(out.Conds, func(a, b int) bool { return out.Conds[a].Name < out.Conds[b].Name })
 	return out
+}
+
+// caseVariants renames, consistently in every file and in the conflict list, one condition, one relation and one type to
+// the upper-case form of another condition / relation / type: names that differ only in case are different names.
+func caseVariants(t *rapid.T, ms *ModuleSet) {
+	var conds, rels, types []string
+	seenC, seenR, seenT := map[string]bool{}, map[string]bool{}, map[string]bool{}
+	add := func(list *[]string, seen map[string]bool, n string) {
+		if n != "" && !seen[n] {
+			seen[n] = true
+			*list = append(*list, n)
+		}
+	}
+	for _, f := range ms.Files {
+		for _, cd := range f.Model.Conds {
+			add(&conds, seenC, cd.Name)
+		}
+		for _, td := range f.Model.Types {
+			add(&types, seenT, td.Name)
+			for _, r := range td.Rels {
+				add(&rels, seenR, r.Name)
+			}
+		}
+	}
+	pick := func(list []string, seen map[string]bool, keep map[string]bool, label string) (from, to string) {
+		if len(list) < 2 {
+			return "", ""
+		}
+		a := rapid.IntRange(0, len(list)-1).Draw(t, label+"A")
+		b := rapid.IntRange(0, len(list)-1).Draw(t, label+"B")
+		up := strings.ToUpper(list[a])
+		if a == b || up == list[a] || seen[up] || keep[list[b]] {
+			return "", ""
+		}
+		return list[b], up
+	}
+	cFrom, cTo := pick(conds, seenC, nil, "caseCond")
+	rFrom, rTo := pick(rels, seenR, map[string]bool{"viewer": true, "parent": true}, "caseRel")
+	tFrom, tTo := pick(types, seenT, map[string]bool{"user": true}, "caseType")
+	C := func(s string) string {
+		if s == cFrom && cFrom != "" {
+			return cTo
+		}
+		return s
+	}
+	R := func(s string) string {
+		if s == rFrom && rFrom != "" {
+			return rTo
+		}
+		return s
+	}
+	T := func(s string) string {
+		if s == tFrom && tFrom != "" {
+			return tTo
+		}
+		return s
+	}
+	for i := range ms.Files {
+		m := ms.Files[i].Model
+		for j := range m.Conds {
+			m.Conds[j].Name = C(m.Conds[j].Name)
+		}
+		for j := range m.Types {
+			td := &m.Types[j]
+			td.Name = T(td.Name)
+			for k := range td.Rels {
+				r := &td.Rels[k]
+				r.Name = R(r.Name)
+				for x := range r.Restr {
+					r.Restr[x].Type = T(r.Restr[x].Type)
+					r.Restr[x].Cond = C(r.Restr[x].Cond)
+					if r.Restr[x].Rel != "" {
+						r.Restr[x].Rel = R(r.Restr[x].Rel)
+					}
+				}
+				if r.Rw != nil {
+					r.Rw.Walk(func(y *Rewrite, _ int) {
+						if y.Rel != "" {
+							y.Rel = R(y.Rel)
+						}
+						if y.Tupleset != "" {
+							y.Tupleset = R(y.Tupleset)
+						}
+					})
+				}
+			}
+		}
+	}
+	for i := range ms.Conflicts {
+		cf := &ms.Conflicts[i]
+		switch cf.Kind {
+		case "duplicate-condition":
+			cf.Name = C(cf.Name)
+		case "relation-clash-base", "relation-clash-extensions":
+			cf.Name, cf.Type = R(cf.Name), T(cf.Type)
+		case "duplicate-type-across", "duplicate-type-within", "extend-missing-type":
+			cf.Name = T(cf.Name)
+		}
+	}
 }
